@@ -52,6 +52,9 @@ func GenPackage(r *Rand, name string, nfuncs int) (string, GenStats) {
 			g.genericFunc()
 		}
 	}
+	// always present: constraint methods obtained by promotion through embedded fields; dead defer statements
+	g.promotedFuncs(strings.HasSuffix(name, "1") || strings.HasSuffix(name, "3") || strings.HasSuffix(name, "5") || strings.HasSuffix(name, "7") || strings.HasSuffix(name, "9"))
+	g.deadDeferFuncs()
 	// always present: named boolean types feeding &&, ||, ! and == directly, struct fields of named bool type, ~bool generics
 	g.flagFuncs()
 	// always present: range-over-func loops whose body defers (the yield closure captures the enclosing defer stack)
@@ -93,6 +96,72 @@ func (g *gen) escFunc(variant int) {
 		g.p("L:\n\t{\n\t\tx := a + %d\n\t\ts += x\n\t\t%s\n\t\tif s > %d { goto M }\n\t\tp = &x\n\t\tgoto J\n\t}\n", k1, extra, k2)
 		g.p("M:\n\ts++\n\tif s < %d { goto L }\nJ:\n\tif p != nil { s += *p }\n\treturn s\n}\n\n", k2+5)
 	}
+}
+
+// promotedFuncs: generic functions calling constraint methods (value and pointer receivers) on type-parameter values,
+// instantiated with struct types that obtain the method by promotion through one or two embedded fields, by value
+// and by pointer (the instance must emit the implicit Field/FieldAddr/Load path before the static call).
+// withSet: the pointer-receiver variant (GenSet) is emitted only in odd-numbered packages, so that a builder that
+// cannot build it still builds the value-receiver variant in the even-numbered ones.
+func (g *gen) promotedFuncs(withSet bool) {
+	g.st.GenericFuncs += 3
+	k := 1 + g.r.Intn(9)
+	g.p(`type Inner struct{ v int }
+
+func (i Inner) Get() int   { return i.v }
+func (i *Inner) Set(n int) { i.v = n }
+
+type Mid struct {
+	Inner
+	k int
+}
+type Outer struct {
+	Mid
+	z int
+}
+type OuterP struct {
+	*Mid
+	z int
+}
+type OuterPP struct {
+	*OuterP
+}
+type Getter interface{ Get() int }
+type GetSetter[T any] interface {
+	*T
+	Get() int
+	Set(int)
+}
+
+func GenGet[T Getter](x T, n int) int { return x.Get() + n }
+func GenGetPtr[T Getter](x *T, n int) int { y := *x; return y.Get() * n }
+`)
+	if withSet {
+		g.p(`func GenSet[T any, P GetSetter[T]](x *T, n int) int {
+	P(x).Set(n)
+	f := P(x).Get
+	return P(x).Get() + f()
+}
+`)
+	}
+	g.p("func usePromoted(a int) int {\n\to := Outer{Mid: Mid{Inner: Inner{v: a}, k: %d}}\n\top := OuterP{Mid: &Mid{Inner: Inner{v: %d}}}\n\topp := OuterPP{&op}\n", k, k+1)
+	g.p("\tr := GenGet(o, a) + GenGet(op, a) + GenGet(opp, 1) + GenGet(&o, 2) + GenGet(Mid{}, 1) + GenGet(Inner{v: 3}, a)\n")
+	g.p("\tr += GenGetPtr(&o, a) + GenGetPtr(&op, 2)\n")
+	if withSet {
+		g.p("\tr += GenSet(&o, a) + GenSet(&op, %d) + GenSet(&opp, 1) + GenSet(&Mid{}, 2) + GenSet(&Inner{}, a)\n", k)
+	}
+	g.p("\treturn r\n}\n\n")
+}
+
+// deadDeferFuncs: functions whose only defer statements are dead code (after a return, after an endless loop), with
+// named and unnamed results: a Recover block is created although no Defer instruction survives.
+func (g *gen) deadDeferFuncs() {
+	g.st.RecoverFuncs += 4
+	k := 2 + g.r.Intn(7)
+	g.p("func DeadDeferA(a int) (res int) {\n\tres = a + %d\n\tif a > 3 { res *= 2 }\n\treturn\n\tdefer func() { recover() }()\n\treturn\n}\n", k)
+	g.p("func DeadDeferB(a int) int {\n\ts := a\n\tfor {\n\t\ts++\n\t\tif s > %d { return s }\n\t}\n\tdefer func() { G++ }()\n\treturn s\n}\n", k*3)
+	g.p("func DeadDeferC(a int, b []int) (n int, err error) {\n\tfor _, x := range b { if x > a { n += x } }\n\tif n > %d { return n, nil }\n\treturn\n\tdefer func() { if r := recover(); r != nil { n = -1 } }()\n\tn++\n\treturn\n}\n", k)
+	g.p("func DeadDeferD(a int) (res int) {\n\tx := a * %d\n\tgoto done\n\tdefer println(x)\ndone:\n\tres = x + 1\n\treturn res\n}\n\n", k)
 }
 
 // flagFuncs: comparisons whose go/types type is a NAMED boolean type, used as direct operands of operators.
